@@ -44,6 +44,10 @@ func c12Shapes() []structShape {
 			name, tag string
 			embedded  bool
 		}{f("name", `wire:"-"`, false), f("Name", "", false), f("NAME", `json:"n" wire:"-"`, false), f("Pool", "", false)}},
+		{"other-tags-with-dash", []struct {
+			name, tag string
+			embedded  bool
+		}{f("DB", "", false), f("Log", `json:"-"`, false), f("Aux", `yaml:"-" wire:"x"`, false), f("Off", `json:"-" wire:"-"`, false)}},
 		{"single", []struct {
 			name, tag string
 			embedded  bool
@@ -220,7 +224,7 @@ func checkC12(c *h.Check) {
 		}
 	}
 	results := c.JudgeAll(cases)
-	stdCoverage(c, cases, results, "four injectors in one package selecting different same-typed fields of one struct; 5 struct shapes (exported/unexported/embedded/prevented fields; tagged fields; pairs and triples of names differing only in letter case) x wire.Struct with every subset of names, \"*\", an unknown name, \"*\" followed by an unknown or a known name x consumers {S, *S, both}; wire.FieldsOf with every non-empty subset and an unknown name x {new(S), new(*S)} x struct {provided by a function, handed in as an injector argument} x consumers of {field type, pointer to field, pointer plus parent with an aliasing probe that compares addresses and writes through the pointer}. Oracle: prevented/unknown names rejected; accepted programs run and the constructed struct is described field by field (selected fields carry the designated identities, all others zero); selected fields equal the parent's fields. Distinct = distinct rendered source.")
+	stdCoverage(c, cases, results, "four injectors in one package selecting different same-typed fields of one struct; 6 struct shapes (exported/unexported/embedded/prevented fields; tagged fields; pairs and triples of names differing only in letter case) x wire.Struct with every subset of names, \"*\", an unknown name, \"*\" followed by an unknown or a known name x consumers {S, *S, both}; wire.FieldsOf with every non-empty subset and an unknown name x {new(S), new(*S)} x struct {provided by a function, handed in as an injector argument} x consumers of {field type, pointer to field, pointer plus parent with an aliasing probe that compares addresses and writes through the pointer}. Oracle: prevented/unknown names rejected; accepted programs run and the constructed struct is described field by field (selected fields carry the designated identities, all others zero); selected fields equal the parent's fields. Distinct = distinct rendered source.")
 	c.Coverage["model_verdict_classes"] = kinds.summary()
 	sampleCase(c, cases, results)
 	if kinds["model:accept"] < 50 || kinds["model:bad-field"] < 20 {
